@@ -38,6 +38,7 @@ type report struct {
 	PanicText string           `json:"panic_text,omitempty"`
 	PanicTask string           `json:"panic_task,omitempty"`
 	Deadlock  string           `json:"deadlock,omitempty"`
+	HangAt    string           `json:"hang_at,omitempty"`
 	Steps     int64            `json:"steps"`
 	Switches  int64            `json:"switches"`
 	VirtualNS int64            `json:"virtual_ns"`
@@ -278,6 +279,8 @@ func firstN(s string, n int) string {
 }
 
 // violationsOf extracts the violations relevant to prop from a report.
+var hangIsViolation = map[string]bool{"C09": true, "C18": true, "C19": true}
+
 func violationsOf(prop string, rep *report) (vs []violation, infra string) {
 	switch rep.Status {
 	case "result", "kill":
@@ -286,6 +289,15 @@ func violationsOf(prop string, rep *report) (vs []violation, infra string) {
 		vs = append(vs, violation{Oracle: prop + ".panic", Key: key, Detail: rep.PanicTask + ": " + firstN(rep.PanicText, 3000)})
 	case "deadlock":
 		vs = append(vs, violation{Oracle: prop + ".deadlock", Key: "deadlock", Detail: rep.Deadlock})
+	case "livelock", "spin":
+		// A library call that never returns. Only the properties whose statement promises
+		// termination (C09 "no execution deadlocks", C18 "neither panics nor hangs", C19 "return
+		// ErrTimeout otherwise") turn it into a violation; elsewhere it stays infrastructure trouble.
+		if !hangIsViolation[prop] || rep.HangAt == "" {
+			return nil, fmt.Sprintf("run ended with status %q at %q (steps=%d): %s", rep.Status, rep.HangAt, rep.Steps, firstN(rep.Deadlock+rep.PanicText, 1500))
+		}
+		vs = append(vs, violation{Oracle: prop + ".hang", Key: rep.Status + "@" + strings.TrimPrefix(rep.HangAt, "github.com/irai/"), Detail: firstN(rep.Deadlock+rep.PanicText, 4000)})
+		return vs, ""
 	default:
 		return nil, fmt.Sprintf("run ended with status %q (steps=%d): %s", rep.Status, rep.Steps, strings.Join(tail(rep.Trace, 15), " / "))
 	}
